@@ -177,6 +177,7 @@ def check(ctx, P, funcs, T, rule="R-ELFBOUND"):
     funcs = [f for f in funcs if not f.dep and f.cfg() is not None]
     fpo, fso = field_origins(funcs)
     infos = {f.u: FnInfo(f, fpo, fso) for f in funcs}
+    narrow_sums = []
     # validated counts: locals / fields compared with a genuine size term in a test whose failing branch leaves are
     # size terms of that origin from then on (one level only: a value checked against a validated count is an index,
     # not a size)
@@ -192,6 +193,30 @@ def check(ctx, P, funcs, T, rule="R-ELFBOUND"):
                     # `count OP <expression over a size of O>`: the lone variable on the other side is validated
                     _, oa = fi._mentions(a)
                     kb_node = strip_casts(b)
+                    if len(oa) == 1 and kb_node is not None and kb_node["k"] == "BinaryOperator" and kb_node.get("op") == "+":
+                        # `c1 + c2 + .. OP <size>`: validates every summand if the sum cannot wrap, i.e. if it is computed in
+                        # a type wider than the 32-bit fields the counts are read from
+                        terms, stack = [], [kb_node]
+                        while stack:
+                            t_ = strip_casts(stack.pop())
+                            while t_ is not None and t_["k"] in ("ImplicitCastExpr", "ParenExpr"):
+                                t_ = strip_casts(t_["c"][0])
+                            if t_ is not None and t_["k"] == "BinaryOperator" and t_.get("op") == "+":
+                                stack.extend(t_["c"])
+                            elif t_ is not None:
+                                terms.append(t_)
+                        tt = (fi.f.type(kb_node) or {}).get("c") or ""
+                        wide = tt in ("unsigned long", "size_t", "unsigned long long", "uint64_t", "long", "long long")
+                        sum_vars = [t_ for t_ in terms if t_["k"] in ("DeclRefExpr", "MemberExpr")]
+                        if sum_vars and all(t_["k"] in ("DeclRefExpr", "MemberExpr", "IntegerLiteral") for t_ in terms):
+                            if wide:
+                                for t_ in sum_vars:
+                                    k = fi.key_of(t_)
+                                    if k is not None and k not in fi.ptr and k not in fi.size:
+                                        new[k] = next(iter(oa))
+                            else:
+                                narrow_sums.append((fi.f, r, tt))
+                        continue
                     if len(oa) != 1 or kb_node is None or kb_node["k"] not in ("DeclRefExpr", "MemberExpr"):
                         continue
                     k = fi.key_of(kb_node)
@@ -202,6 +227,11 @@ def check(ctx, P, funcs, T, rule="R-ELFBOUND"):
         for k, o in new.items():
             if k[0] == "f":
                 fso.setdefault(k[1], o)
+    for f_, r_, tt_ in narrow_sums:
+        ctx.analysed(f_)
+        ctx.ob(rule + "/WRAP", "%s: the bound check `%s` cannot wrap" % (short(f_), expr_str(f_, r_)[:60]), False, f_.loc(r_),
+               "the sum is computed in `%s`, as narrow as the on-disk counters it adds: values chosen so that the sum wraps pass the "
+               "check and index far outside the section" % tt_)
     # validators: functions with a leaving size test that returns false
     validators = {}
     for fi in infos.values():
